@@ -233,6 +233,15 @@ func runC20(c *core.Ctx) {
 	totalSched, totalPoints := 0, 0
 	note := func(st sched.Stats) { totalSched += st.Executions; totalPoints += st.Points }
 
+	// the server must come up over a store that already holds several services (a restart): every scenario below starts that way
+	if !returnsWithin(30*time.Second, func() { c20Server() }) {
+		c.Case("server-start-over-a-populated-store", func(t *core.T) {
+			t.NonTrivial()
+			t.Fail("C20/deadlock/server-start-never-returns", "samlidp.New over a store holding three services, a user, a shortcut and a session has not returned after 30 s (it blocks on a lock of its own)")
+		})
+		return
+	}
+
 	c.Group("rwmutex-conformance")
 	c.Case("rwmutex-model-vs-real", func(t *core.T) { c20Conformance(t, c) })
 
